@@ -457,8 +457,15 @@ Definition unshared (s : state) (xs : list nat) : Prop :=
 Definition enum_resize_ok (s : state) (e : nat) (a : Z) : Prop :=
   (forall x, In x (erefs s e) -> resize_ok s x a) /\ (0 < a -> unshared s (erefs s e)).
 
+(* sizes whose bit count is representable in a 64-bit int *)
+Definition msg_size_ok (n : Z) : Prop := - 2 ^ 60 <= n <= 2 ^ 60 - 1.
+
+Lemma wrap64_id : forall z, - 2 ^ 63 <= z < 2 ^ 63 -> wrap64 z = z.
+Proof. intros z Hz. unfold wrap64. rewrite Z.mod_small by lia. lia. Qed.
+
 Definition ok_op (s : state) (o : op) : Prop :=
   match o with
+  | ONewMsg n => msg_size_ok n
   | OAppend m x | OInsert m x _ => ~ attached s x
   | OMuxInsert u x _ _ =>
       ~ attached s x
@@ -491,9 +498,9 @@ Proof. intros s L H Hin. pose proof (a_alloc s H L _ Hin). lia. Qed.
 
 (* --- creation ------------------------------------------------------------------------------ *)
 
-Lemma inv_new_msg : forall s n, InvA s -> InvA (fst (step s (ONewMsg n))).
+Lemma inv_new_msg : forall s n, InvA s -> msg_size_ok n -> InvA (fst (step s (ONewMsg n))).
 Proof.
-  intros s n H. cbn [step fst]. constructor; cbn.
+  intros s n H Hn. cbn [step fst]. rewrite (wrap64_id (n * 8)) by (unfold msg_size_ok in Hn; lia). constructor; cbn.
   - intros [m|u g]; cbn [lay lsz]; cbn.
     + unfold upd. destruct (Nat.eqb_spec m (nmsg s)) as [->|NE]; [|apply (a_ok s H (LM m))].
       rewrite (a_munalloc s H) by lia. exact I.
@@ -592,7 +599,7 @@ Proof. induction n; intros g; cbn; destruct g; auto. Qed.
 Lemma inv_new_mux : forall s c g, InvA s -> InvA (fst (step s (ONewMux c g))).
 Proof.
   intros s c g H. cbn [step]. destruct (Z.ltb_spec c 0); [exact H|]. destruct (Z.eqb_spec c 0); [exact H|].
-  destruct (Z.ltb_spec g 0); [exact H|]. destruct (Z.eqb_spec g 0); [exact H|]. cbn [fst].
+  destruct (Z.ltb_spec g 0); [exact H|]. destruct (Z.eqb_spec g 0); [exact H|]. destruct (2 ^ 63 - 65 <? g); [exact H|]. cbn [fst].
   eapply (inv_alloc_sig s _ (KMux c g) H); try reflexivity.
   - intros u Hu. cbn. rewrite upd_other by exact Hu. reflexivity.
   - intros g'. cbn. rewrite upd_same. apply nth_repeat_nil.
@@ -2434,7 +2441,7 @@ Qed.
 Theorem inv_step : forall s o, InvA s -> ok_op s o -> InvA (fst (step s o)).
 Proof.
   intros s o H Hop. destruct o; cbn [step].
-  - apply inv_new_msg; exact H.
+  - apply inv_new_msg; [exact H|exact Hop].
   - apply inv_new_std; exact H.
   - apply inv_new_enum; exact H.
   - apply inv_new_enumsig; exact H.
